@@ -394,6 +394,16 @@ PROBE_SECONDS = float(os.environ.get("VERIF_C04_PROBE_SECONDS", "6"))
 _confirmed_hang = [False]
 
 
+def portable_case(entry, payload):
+    """the replayable form of a probe: text as UTF-8 octets (survives lib.normalize / to_obs)"""
+    payload = list(payload)
+    if entry in TEXT_POS and isinstance(payload[TEXT_POS[entry]], str):
+        payload[TEXT_POS[entry]] = payload[TEXT_POS[entry]].encode("utf-8", "surrogatepass")
+    if entry == "name_text" and isinstance(payload[0], str):
+        payload = [payload[0].encode("utf-8", "surrogatepass")] + payload[1:3] + [1]
+    return [entry, payload]
+
+
 def run_probe(entry, payload, seconds=None):
     """-> (outcome string, failure dict or None)"""
     payload = fix_payload(entry, payload)
